@@ -265,7 +265,7 @@ def handleCfg (cmd : String) (args : List Sx) : Option String :=
         | .error _ => "-"
       match cfg.build pats tr acc (fun _ => opt) norm with
       | .ok m =>
-        some s!"ok lt={showLT m.lineTerm} nm={toHex m.nonMatching} lits={showSeq m.fastLits} ask1={asked1} ask2={asked2}"
+        some s!"ok lt={showLT m.lineTerm} vol={b01 m.verifyOnLine} nm={toHex m.nonMatching} lits={showSeq m.fastLits} ask1={asked1} ask2={asked2}"
       | .error e => some s!"{showBuildErr e} ask1={asked1}"
     | _, _, _, _, _, _ => some "bad-op"
   | "c11.confhir", [cfg, pats, tr] =>
@@ -275,6 +275,10 @@ def handleCfg (cmd : String) (args : List Sx) : Option String :=
       | .ok h => some ("ok " ++ showHir h)
       | .error e => some (showBuildErr e)
     | _, _, _ => some "bad-op"
+  | "c11.verify", [cfg, h] =>
+    match parseCfg cfg, parseHir h with
+    | some cfg, some h => some (b01 (cfg.verifyOnLine h))
+    | _, _ => some "bad-op"
   | "c11.wrap", [cfg, h] =>
     match parseCfg cfg, parseHir h with
     | some cfg, some h => let w := cfg.wrap h; some s!"lt={showLT (cfg.lineTerminatorOf w)} hir={showHir w}"
